@@ -326,13 +326,13 @@ prop(
     level="other",
     design_ref="DESIGN.md section 3, C19",
     groups=[(["./pipeline"], r"^(\(\*Batch\)\.ForEach|\(\*Event\)\.reset)$"),
-            (["./plugin/output/elasticsearch"], r"^\(\*Plugin\)\.(sendSplit|appendIndexName|appendEvent|out|out\$1|Start|Start\$1)$"),
+            (["./plugin/output/elasticsearch"], r"^(\(\*Plugin\)\.(sendSplit|appendIndexName|appendEvent|out|out\$1|Start|Start\$1)|appendEscaped)$"),
             (["./plugin/output/http", "./pipeline"], r"^(\(\*Plugin\)\.(sendSplit|out|out\$1)|\(\*(Raw|JSON)Encoder\)\.Encode)$"),
             (["./plugin/output/kafka", "./pipeline"], r"^\(\*Plugin\)\.(out|out\$1)$"),
             (["./plugin/output/gelf"], r"^\(\*Plugin\)\.(formatExtraField|makeTimestampField)$")],
     canaries=[("./plugin/output/http", "replay/C19/zz_raw_encoder_test.go", "TestVerifRawEncoderKeepsEarlierEvents"),
-              ("./plugin/output/gelf", "replay/C19/zz_gelf_inf_timestamp_test.go", "TestVerifGelfTimestampIsJSONNumber")],
-    known_canaries=[("./plugin/output/elasticsearch", "replay/C19/zz_replay_c19_test.go", "TestVerifReplayC19IndexName")],
+              ("./plugin/output/gelf", "replay/C19/zz_gelf_inf_timestamp_test.go", "TestVerifGelfTimestampIsJSONNumber"),
+              ("./plugin/output/elasticsearch", "replay/C19/zz_replay_c19_test.go", "TestVerifReplayC19IndexName")],
     claim=(
         "Proved: Batch.ForEach calls the callback for exactly the non-parent events, in index order (per-iteration obligation); Elasticsearch sendSplit and the http output's sendSplit (split_batch), for every pattern of failing / 413 / successful requests (DoTimeout is an arbitrary environment), "
         "sends contiguous ranges data[begin[l]:begin[r]] so that on success the accepted prefix advances exactly from begin[left] to begin[right] - the resent parts tile the batch exactly once - and a single event that is still too large returns the error (recursive calls use the contract); "
@@ -342,7 +342,9 @@ prop(
         "meets sendSplit's precondition (right < len(begin), entries nondecreasing and within the buffer) - so the proven tiling applies to the table the plugin really builds. "
         "Kafka output: the callback fills record slot i and advances i by one; exactly the first i slots are produced (never a slot left over from an earlier, larger batch). "
         "GELF: every byte formatExtraField appends to an extra-field name is an ASCII letter, digit, '_', '-' or '.', for every event key. "
-        "KNOWN FINDING (open): appendIndexName splices the event's index field value into the action line unescaped."
+        "GELF makeTimestampField writes a finite number. ES appendIndexName passes every value read from the event through appendEscaped (ghost counters), and appendEscaped appends only bytes >= 0x20, "
+        "each appended quote directly behind an appended backslash, the buffer before it unchanged (quantified loop invariant; backslash parity not stated). "
+        "Open findings recorded by input (Loki bad timestamp, GELF retry and duplicate keys) are printed as KNOWN-FINDING."
     ),
     undecided=[
         "document bodies (event.Encode), file / http / splunk / loki / gelf envelopes: insane-json encoder (third-party), not applicable to contracts on file.d code",
